@@ -24,6 +24,19 @@ def to_json_txns(lines):
         out.append(t)
     return json.dumps(out)
 
+def broken_json(rng, ls):
+    """the ledger as one long JSON line with one field turned into text that cannot be a number, made of multi-byte
+    characters of varying length (the error position then falls among them)"""
+    recs = json.loads(to_json_txns(ls))
+    if not recs: return "[{]"
+    r = rng.choice(recs)
+    fields = [k for k in ("price", "amount", "ratio", "total_value", "fees") if k in r] or ["date"]
+    k = rng.choice(fields)
+    r[k] = rng.choice(["£", "é", "€", "日本", "ß"]) * rng.randint(1, 70) + rng.choice(["131.40", "", " 5", "x"])
+    if rng.random() < 0.5:
+        for q in recs: q["ticker"] = q.get("ticker", "A") + rng.choice(["", "Ö", "ÖÖÖ", "X" * rng.randint(0, 9)])
+    return json.dumps(recs, ensure_ascii=False, separators=rng.choice([(",", ":"), (", ", ": ")]))
+
 def gen_requests(rng, n, ledgers):
     """list of (kind, request-without-id) ; ledgers: list of (lines, dsl)"""
     reqs = []
@@ -47,6 +60,11 @@ def gen_requests(rng, n, ledgers):
             reqs.append(("fx", ("tools/call", {"name": "get_fx_rate", "arguments": {"currency": rng.choice(["USD", "usd", "EUR", "XXX", "ZZ"]), "year": rng.choice([2015, 2024, 2031, 1999]), "month": rng.choice([1, 6, 12, 0, 13])}})))
         elif r < 0.60:
             reqs.append(("todsl", ("tools/call", {"name": "convert_to_dsl", "arguments": {"transactions": rng.choice([to_json_txns(ls), "not json", "[]", dsl])}})))
+        elif r < 0.64:
+            name = rng.choice(["parse_transactions", "calculate_report", "convert_to_dsl", "explain_matching"])
+            args = {"transactions": broken_json(rng, ls)}
+            if name == "explain_matching": args.update(disposal_date="2024-06-01", ticker="A")
+            reqs.append(("broken_json", ("tools/call", {"name": name, "arguments": args})))
         elif r < 0.66: reqs.append(("list", ("tools/list", {})))
         elif r < 0.72: reqs.append(("resources", (rng.choice(["resources/list", "ping"]), {})))
         elif r < 0.78: reqs.append(("read", ("resources/read", {"uri": rng.choice(["cgt://docs/dsl-syntax", "cgt://docs/tax-rules", "cgt://nope", "file:///etc/passwd"])})))
